@@ -13,6 +13,11 @@
 //	drain    N senders Send their values, a receiver goroutine reads until Next fails; when every Send
 //	         has returned nil the sender is closed (nil or an error): Next must deliver every value
 //	         (per sender in order, once) and then report, and must return at all
+//	closerace  (a phase of its own, second child) the sender's Close racing calls that are in
+//	         progress: a few dozen to a few thousand goroutines parked in Send (the runtime's close
+//	         has to wake every one of them, which takes it a while), Close(err) / Close(nil) while a
+//	         receiver reads to the first report and — once every Send has returned — a few calls
+//	         beyond it. See closeRaceRound for the verdicts; each can only be a true positive.
 //
 // "Has not returned although its condition holds" is detected without any wall-clock timeout: the
 // rounds run in a child process (this test binary re-executed with VERIF_C10_STRESS_CHILD set, see
@@ -55,11 +60,11 @@ func TestMain(m *testing.M) {
 
 // stressCfg is one round's configuration.
 type stressCfg struct {
-	Kind  string // trysend | send | drain
+	Kind  string // trysend | send | drain | closerace
 	N     int    // goroutines calling TrySend / Send
 	B     int    // buffer size
 	Calls int    // calls per goroutine
-	How   string // send: rclose | sclose | sclose-err | cancel; drain: nil | err | canceled | wrapcanceled
+	How   string // send: rclose | sclose | sclose-err | cancel; drain: nil | err | canceled | wrapcanceled; closerace: the same as drain, "-early" appended = the receiver reads from the start
 }
 
 func (c stressCfg) String() string {
@@ -74,7 +79,7 @@ func parseStressCfg(l string) (stressCfg, bool) {
 	n, e1 := strconv.Atoi(f[2])
 	b, e2 := strconv.Atoi(f[3])
 	k, e3 := strconv.Atoi(f[4])
-	if e1 != nil || e2 != nil || e3 != nil || n < 1 || n > 64 || b < 0 || k < 1 {
+	if e1 != nil || e2 != nil || e3 != nil || n < 1 || n > 8000 || b < 0 || k < 1 {
 		return stressCfg{}, false
 	}
 	return stressCfg{Kind: f[1], N: n, B: b, Calls: k, How: f[5]}, true
@@ -93,6 +98,36 @@ func stressCfgOf(seed uint64, r int) stressCfg {
 	}
 	return stressCfg{Kind: "drain", N: rng.Range(1, 4), B: []int{0, 1, 2, 5}[rng.Intn(4)], Calls: rng.Range(1, 6),
 		How: []string{"nil", "err", "canceled", "wrapcanceled"}[rng.Intn(4)]}
+}
+
+// closeRaceCfgOf derives the configuration of round r of the closerace phase from the seed.
+func closeRaceCfgOf(seed uint64, r int) stressCfg {
+	rng := vlib.NewRand(seed*1000003 + 500009 + uint64(r))
+	c := stressCfg{Kind: "closerace", Calls: 1}
+	if rng.Chance(3, 5) {
+		// the core shape: a few thousand senders parked on an unbuffered pipe that is closed with an
+		// error while the receiver starts reading — the widest window between "done" and the error
+		c.N = []int{1000, 2000, 3000}[rng.Intn(3)]
+		c.How = []string{"err", "err", "canceled", "wrapcanceled"}[rng.Intn(4)]
+		if raceEnabled {
+			c.N = 1000
+		}
+		return c
+	}
+	// the other shapes: fewer senders, buffered pipes, Close(nil), a receiver that reads from the start
+	c.N = []int{3000, 1000, 2000, 300, 3000, 1000, 64, 8}[rng.Intn(8)]
+	c.B = []int{0, 0, 0, 0, 0, 1, 3, 0}[rng.Intn(8)]
+	c.How = []string{"err", "err", "err", "err", "canceled", "wrapcanceled", "nil", "nil"}[rng.Intn(8)]
+	if c.N <= 300 && rng.Chance(1, 2) {
+		c.Calls = 2
+	}
+	if rng.Chance(1, 5) {
+		c.How += "-early"
+	}
+	if raceEnabled && c.N > 1000 {
+		c.N = 1000 // the race detector allows 8128 live goroutines and is slow
+	}
+	return c
 }
 
 // barrier makes n goroutines start their calls as simultaneously as the machine allows.
@@ -116,10 +151,20 @@ func (b *barrier) arrive() {
 	}
 }
 
-// stressRound runs one round in the calling (main) goroutine of the child; it returns a non-empty
-// "kind|what" if a clause that does not involve blocking is violated. A stuck call never returns from
+// stressRound runs one round in the calling (main) goroutine of the child; it returns one
+// "kind|what" per clause violated that does not involve blocking. A stuck call never returns from
 // here: the runtime's deadlock detector ends the process.
-func stressRound(c stressCfg) string {
+func stressRound(c stressCfg) []string {
+	if c.Kind == "closerace" {
+		return closeRaceRound(c)
+	}
+	if msg := stressRoundOne(c); msg != "" {
+		return []string{msg}
+	}
+	return nil
+}
+
+func stressRoundOne(c stressCfg) string {
 	switch c.Kind {
 	case "trysend":
 		sender, _ := stream.Pipe[int](c.B)
@@ -246,8 +291,225 @@ func stressRound(c stressCfg) string {
 	return ""
 }
 
-// stressChild: spec = "<seed> <rounds> <ms> <fixed cfg or ->". Prints "round <r> <cfg>" before every
-// round, "FAIL kind|what" + exit 3 on a non-blocking violation, "done <rounds>" + exit 0 otherwise.
+// closeRaceRound: the sender's Close racing Sends that are in progress and a receiver that is reading.
+//
+// N goroutines call Send (Calls values each, value = sender*Calls + k) on a pipe with buffer B; the
+// main goroutine waits until all of them have reached their first Send and gives them a moment to
+// park inside it (this pause only widens the window, no verdict depends on it), then calls
+// Close(cerr). The receiver goroutine starts reading at that moment ("-early": from the start), reads
+// to the first report R1 (Next's first non-nil error), waits until every Send has returned — from
+// then on no Send is in flight and none is ever started again — and calls Next until it has three
+// more reports. Two flags order a Send's return against Close without a clock: each sender loads
+// closeCalled (stored by main just before it calls Close) and closeReturned (stored just after Close
+// returned) *after* its Send has returned; a flag still false proves that the Send returned before
+// Close was called / before Close returned.
+//
+// Verdicts (none can fire on code that keeps the property, whatever the schedule):
+//
+//	pipe-duplicate / pipe-unsent-value / pipe-order  (-real-threads) on everything Next returned
+//	pipe-lost-before-end-real-threads   a value whose Send returned nil before Close was even called is
+//	        not among the values delivered before R1; on an unbuffered pipe closed with an error: a value
+//	        whose Send returned nil before Close had returned (a nil from an unbuffered pipe's Send is a
+//	        hand-over to a Next call, or — after Close(nil) only — the stored nil error) was never
+//	        delivered although the receiver read on to the report and beyond
+//	c08-pipe-error-not-reported-real-threads  the sender was closed with cerr != nil (and never with
+//	        nil) and R1 is End or another error;  pipe-end-real-threads: closed with nil, R1 is not End
+//	pipe-end-not-sticky-real-threads    a report made with no Send in flight and none started since
+//	        differs from R1 or from an earlier report of that period, or is followed by a value; on an
+//	        unbuffered pipe also: any value follows R1 (there neither side can park after the Close, so
+//	        no hand-over is possible; a buffered pipe may still hold values of Sends that raced the Close)
+//
+// A Send or Next that never returns leaves every goroutine asleep: the runtime's deadlock detector.
+func closeRaceRound(c stressCfg) []string {
+	how, early := strings.CutSuffix(c.How, "-early")
+	var cerr error
+	switch how {
+	case "err":
+		cerr = errE
+	case "canceled":
+		cerr = context.Canceled
+	case "wrapcanceled":
+		cerr = fmt.Errorf("sender: upstream read: %w", context.Canceled)
+	}
+	sender, recv := stream.Pipe[int](c.B)
+	total := c.N * c.Calls
+	const (
+		notReturned = iota
+		nilBeforeCloseCalled
+		nilBeforeCloseReturned
+		nilLater
+		closeError
+		otherError
+	)
+	outcome := make([]uint8, total) // slot v is written by the sender of v only
+	var closeCalled, closeReturned atomic.Bool
+	var atSend atomic.Int32
+	var swg, rwg sync.WaitGroup
+	bg := context.Background()
+	for i := 0; i < c.N; i++ {
+		swg.Add(1)
+		go func(i int) {
+			defer swg.Done()
+			atSend.Add(1)
+			for k := 0; k < c.Calls; k++ {
+				v := i*c.Calls + k
+				err := sender.Send(bg, v)
+				switch {
+				case err == nil && !closeCalled.Load():
+					outcome[v] = nilBeforeCloseCalled
+				case err == nil && !closeReturned.Load():
+					outcome[v] = nilBeforeCloseReturned
+				case err == nil:
+					outcome[v] = nilLater
+				case err == cerr:
+					outcome[v] = closeError
+				default:
+					outcome[v] = otherError
+				}
+				if err != nil {
+					return
+				}
+			}
+		}(i)
+	}
+	type obs struct {
+		v   int
+		err error
+	}
+	var got []int  // delivered before the first report
+	var r1 error   // the first report
+	var post []obs // what Next returned once no Send was in flight any more
+	startRecv := make(chan struct{})
+	rwg.Add(1)
+	go func() {
+		defer rwg.Done()
+		<-startRecv
+		for {
+			v, err := recv.Next(bg)
+			if err != nil {
+				r1 = err
+				break
+			}
+			got = append(got, v)
+		}
+		swg.Wait() // every Send has returned; none is ever started again
+		for reports := 0; reports < 3 && len(post) < total+3; {
+			v, err := recv.Next(bg)
+			post = append(post, obs{v, err})
+			if err != nil {
+				reports++
+			}
+		}
+	}()
+	if early {
+		close(startRecv)
+	}
+	spawn := time.Now()
+	for atSend.Load() < int32(c.N) {
+		runtime.Gosched()
+	}
+	// let the senders park inside Send — about as long as it took all of them to get going, so that a
+	// loaded machine gets more time; only the width of the window depends on it, never a verdict
+	park := time.Since(spawn)
+	if floor := time.Duration(c.N) * time.Microsecond; park < floor {
+		park = floor
+	}
+	if park > 10*time.Millisecond {
+		park = 10 * time.Millisecond
+	}
+	time.Sleep(park)
+	if !early {
+		close(startRecv)
+	}
+	closeCalled.Store(true)
+	sender.Close(cerr)
+	closeReturned.Store(true)
+	rwg.Wait() // Next has reported, every Send has returned, Next has reported three more times
+	swg.Wait()
+	recv.Close()
+
+	var out []string
+	fail := func(kind, format string, a ...interface{}) {
+		for _, o := range out {
+			if strings.HasPrefix(o, kind+"|") {
+				return
+			}
+		}
+		out = append(out, kind+"|"+fmt.Sprintf(format, a...))
+	}
+	closedWith := "nil"
+	if cerr != nil {
+		closedWith = fmt.Sprintf("%q", cerr)
+	}
+	shape := fmt.Sprintf("%d senders x %d Send, buffer %d, Close(%s)", c.N, c.Calls, c.B, closedWith)
+	// values: only sent ones, at most once, each sender's in order
+	seen := make([]bool, total)
+	beforeR1 := make([]bool, total)
+	lastOf := map[int]int{}
+	all := append([]int{}, got...)
+	for _, o := range post {
+		if o.err == nil {
+			all = append(all, o.v)
+		}
+	}
+	for n, v := range all {
+		if v < 0 || v >= total {
+			fail("pipe-unsent-value-real-threads", "%s: Next returned %d which no Send was called with", shape, v)
+			continue
+		}
+		if seen[v] {
+			fail("pipe-duplicate-real-threads", "%s: Next returned %d twice", shape, v)
+		}
+		seen[v] = true
+		if n < len(got) {
+			beforeR1[v] = true
+		}
+		i, k := v/c.Calls, v%c.Calls
+		if p, ok := lastOf[i]; ok && k < p {
+			fail("pipe-order-real-threads", "%s: sender %d's value #%d was delivered after its #%d", shape, i, k, p)
+		}
+		lastOf[i] = k
+	}
+	// nothing acknowledged before the Close is lost
+	for v, oc := range outcome {
+		switch {
+		case oc == nilBeforeCloseCalled && !beforeR1[v]:
+			fail("pipe-lost-before-end-real-threads", "%s: Send(%d) returned nil before Close was called, but Next reported %v after %d values without having delivered it", shape, v, r1, len(got))
+		case oc == nilBeforeCloseReturned && c.B == 0 && cerr != nil && !seen[v]:
+			fail("pipe-lost-before-end-real-threads", "%s: Send(%d) returned nil before Close(%s) had returned — on an unbuffered pipe that is a hand-over to the receiver — but the value was never delivered, although the receiver read on until Next reported %v (after %d values) and %d calls beyond", shape, v, closedWith, r1, len(got), len(post))
+		}
+	}
+	// the report itself
+	if cerr != nil && r1 != cerr {
+		fail("c08-pipe-error-not-reported-real-threads", "%s: the sender was closed with %s (never with nil), Next reported %v after %d values", shape, closedWith, r1, len(got))
+	}
+	if cerr == nil && r1 != stream.End {
+		fail("pipe-end-real-threads", "%s: sender closed with nil, Next reported %v", shape, r1)
+	}
+	// once reported, keeps being reported (no Send in flight, none started since)
+	var quiet error
+	for n, o := range post {
+		switch {
+		case o.err == nil && c.B == 0:
+			fail("pipe-end-not-sticky-real-threads", "%s: Next reported %v; after every Send had returned (none in flight, none started since) call %d of Next returned the value %d", shape, r1, n+1, o.v)
+		case o.err == nil && quiet != nil:
+			fail("pipe-end-not-sticky-real-threads", "%s: with no Send in flight and none started since, Next reported %v and then returned the value %d", shape, quiet, o.v)
+		case o.err != nil && quiet != nil && o.err != quiet:
+			fail("pipe-end-not-sticky-real-threads", "%s: with no Send in flight and none started since, Next reported %v and then %v", shape, quiet, o.err)
+		case o.err != nil && quiet == nil && o.err != r1:
+			// (whatever the buffer: the reports of one pipe are one stored value — End or the close error)
+			fail("pipe-end-not-sticky-real-threads", "%s: Next reported %v after %d values while Sends released by the Close were still returning; once every Send had returned (none in flight, none started since) Next reported %v", shape, r1, len(got), o.err)
+		}
+		if o.err != nil && quiet == nil {
+			quiet = o.err
+		}
+	}
+	return out
+}
+
+// stressChild: spec = "<seed> <rounds> <ms> <fixed cfg | - | closerace>". Prints "round <r> <cfg>"
+// before every round, one "FAIL kind|what" per non-blocking clause violated in it, "done <rounds>" at
+// the end; exit 3 if any round failed, 0 otherwise. "-": the mixed rounds of stressCfgOf; "closerace": the rounds of closeRaceCfgOf.
 func stressChild(spec string) {
 	f := strings.SplitN(spec, " ", 4)
 	if len(f) != 4 {
@@ -258,20 +520,39 @@ func stressChild(spec string) {
 	rounds, _ := strconv.Atoi(f[1])
 	ms, _ := strconv.Atoi(f[2])
 	fixed, isFixed := parseStressCfg(f[3])
+	if runtime.GOMAXPROCS(0) < 4 {
+		runtime.GOMAXPROCS(4) // the races need goroutines that really run at the same time
+	}
 	start := time.Now()
-	r := 0
+	r, failing := 0, 0
 	for ; r < rounds && time.Since(start) < time.Duration(ms)*time.Millisecond; r++ {
 		c := fixed
-		if !isFixed {
+		switch {
+		case isFixed:
+		case f[3] == "closerace":
+			c = closeRaceCfgOf(seed, r)
+		default:
 			c = stressCfgOf(seed, r)
 		}
 		fmt.Fprintf(os.Stdout, "round %d %s\n", r, c)
-		if msg := stressRound(c); msg != "" {
-			fmt.Fprintf(os.Stdout, "FAIL %s\n", msg)
-			os.Exit(3)
+		if msgs := stressRound(c); len(msgs) > 0 {
+			for _, msg := range msgs {
+				fmt.Fprintf(os.Stdout, "FAIL %s\n", msg)
+			}
+			failing++
+			// A fixed configuration stops at its first violating round. The mixed rounds go on: the
+			// kinds one round can show depend on its shape (buffered rounds show only the c08- clause),
+			// and a failure of one kind-prefix class must not keep the rounds that show another class
+			// from being run.
+			if isFixed || failing >= 12 {
+				break
+			}
 		}
 	}
 	fmt.Fprintf(os.Stdout, "done %d procs %d\n", r, runtime.GOMAXPROCS(0))
+	if failing > 0 {
+		os.Exit(3)
+	}
 	os.Exit(0)
 }
 
@@ -283,12 +564,32 @@ type stressOutcome struct {
 	procs    int
 	lastCfg  stressCfg
 	lastR    int
-	kind     string // "" = clean
+	kind     string // "" = clean; the first finding
 	what     string
+	finds    []stressFind // the first finding of every kind
 	dump     []string
 	harness  string // non-empty: the child could not be run / ended in a way that is not a verdict
 	perKind  map[string]int
 	duration time.Duration
+}
+
+// stressFind: one violated clause, with the configuration and round that showed it.
+type stressFind struct {
+	kind, what string
+	cfg        stressCfg
+	round      int
+}
+
+func (o *stressOutcome) add(kind, what string) {
+	for _, f := range o.finds {
+		if f.kind == kind {
+			return
+		}
+	}
+	o.finds = append(o.finds, stressFind{kind, what, o.lastCfg, o.lastR})
+	if o.kind == "" {
+		o.kind, o.what = kind, what
+	}
 }
 
 var stuckFrame = regexp.MustCompile(`juniper/stream\.\(\*(\w+)\[[^\]]*\]\)\.(\w+)`)
@@ -312,7 +613,7 @@ func runStressChild(seed uint64, rounds, ms int, fixed string) stressOutcome {
 	err = cmd.Wait()
 	killed := !backstop.Stop()
 	o.duration = time.Since(start)
-	fail := ""
+	failed := false
 	for _, l := range strings.Split(stdout.String(), "\n") {
 		switch {
 		case strings.HasPrefix(l, "round "):
@@ -331,19 +632,21 @@ func runStressChild(seed uint64, rounds, ms int, fixed string) stressOutcome {
 				o.procs, _ = strconv.Atoi(f[3])
 			}
 		case strings.HasPrefix(l, "FAIL "):
-			fail = strings.TrimPrefix(l, "FAIL ")
+			failed = true
+			p := append(strings.SplitN(strings.TrimPrefix(l, "FAIL "), "|", 2), "")
+			what := p[1]
+			if o.lastCfg.Kind == "closerace" {
+				what = fmt.Sprintf("round %d (%s): %s", o.lastR, o.lastCfg, p[1])
+			}
+			o.add(p[0], what)
 		}
 	}
 	switch {
 	case killed:
 		o.harness = fmt.Sprintf("the stress child neither finished nor deadlocked within the backstop (last: round %d %s)", o.lastR, o.lastCfg)
 	case err == nil:
-	case fail != "":
-		p := strings.SplitN(fail, "|", 2)
-		o.kind = p[0]
-		if len(p) > 1 {
-			o.what = p[1]
-		}
+	case failed && cmd.ProcessState != nil && cmd.ProcessState.ExitCode() == 3:
+		// rounds that violated a non-blocking clause; the child ran on and ended by itself
 	case strings.Contains(stderr.String(), "all goroutines are asleep - deadlock!"):
 		// which call is stuck: the innermost juniper/stream frame of a blocked goroutine
 		call := ""
@@ -362,23 +665,23 @@ func runStressChild(seed uint64, rounds, ms int, fixed string) stressOutcome {
 				}
 			}
 		}
+		stuck := "call-stuck-real-threads"
 		switch call {
 		case "TrySend":
-			o.kind = "trysend-blocked-real-threads"
+			stuck = "trysend-blocked-real-threads"
 		case "Send":
-			o.kind = "send-stuck-real-threads"
+			stuck = "send-stuck-real-threads"
 		case "Next":
-			o.kind = "next-stuck-real-threads"
-		default:
-			o.kind = "call-stuck-real-threads"
+			stuck = "next-stuck-real-threads"
 		}
 		cond := map[string]string{
-			"trysend": "TrySend must never block",
-			"send":    "the receiver was closed / the sender was closed / every context had expired, so every Send had to return",
-			"drain":   "every Send had returned and the sender was closed, so Next had to report",
+			"trysend":   "TrySend must never block",
+			"send":      "the receiver was closed / the sender was closed / every context had expired, so every Send had to return",
+			"drain":     "every Send had returned and the sender was closed, so Next had to report",
+			"closerace": "the sender was closed, so every Send and every Next had to return",
 		}[o.lastCfg.Kind]
-		o.what = fmt.Sprintf("round %d (%s): a call never returned — the Go runtime found every goroutine of the process asleep (%s); blocked: %s",
-			o.lastR, o.lastCfg, cond, strings.Join(o.dump, "; "))
+		o.add(stuck, fmt.Sprintf("round %d (%s): a call never returned — the Go runtime found every goroutine of the process asleep (%s); blocked: %s",
+			o.lastR, o.lastCfg, cond, strings.Join(o.dump, "; ")))
 	default:
 		tail := stderr.String()
 		if len(tail) > 600 {
@@ -389,7 +692,7 @@ func runStressChild(seed uint64, rounds, ms int, fixed string) stressOutcome {
 	return o
 }
 
-// stress runs the real-threads phase and records its verdict.
+// stress runs the real-threads phases and records their verdicts.
 func (c *checker) stress(env vlib.Env) {
 	ms, rounds := 1500, 4000
 	if env.Thorough() || env.Deep {
@@ -398,44 +701,82 @@ func (c *checker) stress(env vlib.Env) {
 	if raceEnabled {
 		rounds /= 4
 	}
-	o := runStressChild(env.Seed, rounds, ms, "-")
-	c.res.CountN("stress-rounds", o.rounds)
+	c.stressPhase(env, "-", rounds, ms, "stress")
+	// Close racing Sends in progress: few, heavy rounds (up to 3000 goroutines each)
+	ms, rounds = 1200, 600
+	if env.Thorough() || env.Deep {
+		ms, rounds = 6000, 6000
+	}
+	c.stressPhase(env, "closerace", rounds, ms, "closerace")
+}
+
+func (c *checker) stressPhase(env vlib.Env, mode string, rounds, ms int, tag string) {
+	o := runStressChild(env.Seed, rounds, ms, mode)
+	c.res.CountN(tag+"-rounds", o.rounds)
 	for k, n := range o.perKind {
-		c.res.CountN("stress-"+k, n)
+		if k != tag {
+			c.res.CountN("stress-"+k, n)
+		}
 	}
 	if o.procs == 1 {
 		c.res.Count("stress-single-proc")
 	}
-	if o.harness != "" {
-		c.t.Errorf("real-threads stress phase: %s", o.harness)
+	if o.harness != "" && len(o.finds) == 0 {
+		c.t.Errorf("real-threads stress phase (%s): %s", tag, o.harness)
 		return
 	}
-	if o.kind == "" {
-		return
-	}
-	// confirm with the failing configuration alone (and try the smallest racing shape of it)
-	best, bestO := o.lastCfg, o
-	trace := []string{fmt.Sprintf("seed %d round %d", env.Seed, o.lastR)}
-	cands := []stressCfg{o.lastCfg}
-	small := stressCfg{Kind: o.lastCfg.Kind, N: 2, B: o.lastCfg.B, Calls: 1, How: o.lastCfg.How}
-	if small.Kind == "trysend" {
-		small.B = 1 // two callers, one free slot
-	}
-	if small != o.lastCfg {
-		cands = append([]stressCfg{small}, cands...)
-	}
-	for _, cand := range cands {
+	// every kind found is confirmed with its configuration alone (first with the smallest racing shape
+	// of it) and reported with that configuration as its case; kinds of different prefix classes (own /
+	// c08-) are judged by different checks, so each gets its own failure
+	confirmed := map[stressCfg]stressOutcome{}
+	confirm := func(cand stressCfg) stressOutcome {
+		if o2, ok := confirmed[cand]; ok {
+			return o2
+		}
 		o2 := runStressChild(env.Seed, 60000, 6000, cand.String())
-		if o2.harness == "" && o2.kind == o.kind {
-			best, bestO = cand, o2
-			trace = []string{fmt.Sprintf("this configuration alone: stuck in round %d", o2.lastR)}
+		confirmed[cand] = o2
+		return o2
+	}
+	for n, f := range o.finds {
+		if n >= 6 {
 			break
 		}
+		best, bestF := f.cfg, f
+		trace := []string{fmt.Sprintf("seed %d round %d", env.Seed, f.round)}
+		cands := []stressCfg{f.cfg}
+		small := stressCfg{Kind: f.cfg.Kind, N: 2, B: f.cfg.B, Calls: 1, How: f.cfg.How}
+		switch small.Kind {
+		case "trysend":
+			small.B = 1 // two callers, one free slot
+		case "closerace":
+			small.N = 300 // the window is the time the runtime's close needs to wake the parked senders
+		}
+		if small != f.cfg && (small.Kind != "closerace" || small.N < f.cfg.N) {
+			cands = append([]stressCfg{small}, cands...)
+		}
+		var dump []string
+	search:
+		for _, cand := range cands {
+			o2 := confirm(cand)
+			if o2.harness != "" {
+				continue
+			}
+			for _, f2 := range o2.finds {
+				if f2.kind == f.kind {
+					best, bestF, dump = cand, f2, o2.dump
+					trace = []string{fmt.Sprintf("this configuration alone: violated in round %d", f2.round)}
+					break search
+				}
+			}
+		}
+		if dump == nil {
+			dump = o.dump
+		}
+		c.res.Fail(vlib.Failure{Source: "monitor", Kind: f.kind,
+			Params: map[string]interface{}{"buffer": best.B, "senders": best.N, "real_threads": true},
+			What:   bestF.what,
+			Case:   Case{Scenario: []string{best.String()}, Trace: append(trace, dump...), Kind: f.kind}})
 	}
-	c.res.Fail(vlib.Failure{Source: "monitor", Kind: bestO.kind,
-		Params: map[string]interface{}{"buffer": best.B, "senders": best.N, "real_threads": true},
-		What:   bestO.what,
-		Case:   Case{Scenario: []string{best.String()}, Trace: append(trace, bestO.dump...), Kind: bestO.kind}})
 }
 
 // replayStress re-runs a recorded real-threads case.
@@ -450,7 +791,9 @@ func replayStress(cs Case) {
 	case o.kind == "":
 		fmt.Printf("monitor: no clause violated in %d rounds\n", o.rounds)
 	default:
-		fmt.Printf("monitor: %s\n  %s\n", o.kind, o.what)
+		for _, f := range o.finds {
+			fmt.Printf("monitor: %s\n  %s\n", f.kind, f.what)
+		}
 		os.Exit(1)
 	}
 }
